@@ -75,6 +75,19 @@ def enum_order(n):
     dict with counts and any violation found."""
     core.lib()
     from ecdsa import util as lu
+    # the value drawn is a function of (order, bytes), not of what the
+    # sampler was asked before: draw for sibling orders of the same bit
+    # length first (a stale per-size cache would show in the counts below)
+    import random as _random
+    wr = _random.Random(n * 7919)
+    bl = max(n.bit_length(), 1)
+    for sib in (1 << (bl - 1), (1 << (bl - 1)) + 1, max(2, n - 1), n + 1,
+                (1 << bl) - 1, max(2, 1 << (bl - 1)) + 2):
+        if sib >= 2:
+            try:
+                lu.randrange(sib, lambda k: wr.randbytes(k))
+            except Exception:
+                pass
     size = _first_request_size(lu, n)
     res = dict(order=n, size=size, leaves=0, rejected=0, violation=None)
     if size is None:
@@ -140,6 +153,94 @@ def enum_order(n):
     return res
 
 
+def enum_key_paths(cname):
+    """Enumerate every first-request byte string through
+    SigningKey.generate(entropy=) and SigningKey.sign_number(entropy=) on a
+    toy curve: private scalars and nonces must be uniform over [1, n-1]."""
+    core.lib()
+    from ecdsa import util as lu, keys as lk
+    from ecdsa.ecdsa import RSZeroError
+    mc = mcurves.by_name(cname)
+    n = mc.n
+    curve = libx.fresh_lib_curve(mc)
+    res = dict(order=n, curve=cname, leaves=0, rejected=0, violation=None,
+               size=None, kind="key_paths")
+    size = _first_request_size(lu, n)
+    sizes = []
+
+    def probe(nb):
+        sizes.append(nb)
+        raise world.NeedMore()
+    try:
+        lk.SigningKey.generate(curve, probe)
+    except world.NeedMore:
+        pass
+    gsize = sizes[0] if sizes else None
+    res["size"] = gsize
+    if gsize is None or gsize > 2:
+        res["not_enumerable"] = gsize is not None
+        if gsize is None:
+            res["violation"] = ("generate-no-request", "SigningKey.generate "
+                                "did not ask the entropy source for anything")
+        return res
+    sk = lk.SigningKey.from_secret_exponent(1 + n // 3, curve)
+    d = 1 + n // 3
+    e = 5 % n
+    for path in ("generate", "sign_number"):
+        counts = {}
+        for w in range(256 ** gsize):
+            script = w.to_bytes(gsize, "big")
+            dev = world.SimEntropy("scripted", script=script)
+            try:
+                if path == "generate":
+                    v = int(lk.SigningKey.generate(curve, dev)
+                            .privkey.secret_multiplier)
+                else:
+                    try:
+                        r_, s_ = sk.sign_number(e, entropy=dev)
+                        v = (e + r_ * d) * ec.inv(s_, n) % n
+                    except RSZeroError:
+                        # the nonce is whatever the sampler drew
+                        v = lu.randrange(n, world.SimEntropy(
+                            "scripted", script=script))
+            except world.NeedMore:
+                res["rejected"] += 1
+                continue
+            except Exception as ex:
+                res["violation"] = (path + "-raises-" + type(ex).__name__,
+                                    "%s on %s raised %r for entropy %s" % (
+                                        path, cname, ex, script.hex()))
+                return res
+            if not 1 <= v <= n - 1:
+                res["violation"] = (path + "-range", "%s on %s gave %r for "
+                                    "entropy %s" % (path, cname, v,
+                                                    script.hex()))
+                return res
+            counts[v] = counts.get(v, 0) + 1
+        res["leaves"] += 256 ** gsize
+        missing = [v for v in range(1, n) if v not in counts]
+        if missing:
+            res["violation"] = (path + "-missing", "%s on %s (n=%d): values "
+                                "%r are never produced" % (path, cname, n,
+                                                           missing[:8]))
+            return res
+        if len(set(counts.values())) != 1:
+            lo = min(counts, key=counts.get)
+            hi = max(counts, key=counts.get)
+            res["violation"] = (path + "-biased", "%s on %s (n=%d): value %d "
+                                "from %d strings, value %d from %d" % (
+                                    path, cname, n, hi, counts[hi], lo,
+                                    counts[lo]))
+            return res
+    return res
+
+
+def _enum_any(job):
+    if isinstance(job, str):
+        return enum_key_paths(job)
+    return enum_order(job)
+
+
 def _outcome(lu, n, script):
     dev = world.SimEntropy("scripted", script=script)
     try:
@@ -175,8 +276,15 @@ def extra(tier, seed):
     results = []
     with cf.ProcessPoolExecutor(max_workers=workers, mp_context=ctx) as ex:
         # big orders first so the tail is short
-        for res in ex.map(enum_order, three + sorted(orders, reverse=True),
-                          chunksize=1 if three else 8):
+        keycurves = [c.name for c in mcurves.toy()
+                     if c.h == 1 and c.n < (128 if tier == "quick" else 4096)]
+        rs = core.rng(seed, "c17-enum-order")
+        jobs = sorted(orders, reverse=True)
+        # half the workers see the orders ascending, half descending, so a
+        # value that depended on what was drawn before shows either way
+        jobs = jobs[::2] + list(reversed(jobs[1::2]))
+        for res in ex.map(_enum_any, three + keycurves + jobs,
+                          chunksize=1 if three else 6):
             results.append(res)
     viols = []
     leaves = 0
@@ -188,8 +296,10 @@ def extra(tier, seed):
         if res["violation"]:
             site, msg = res["violation"]
             v = core.violation(ID, "uniform", site, msg)
-            viols.append(dict(index=-res["order"], run_seed=0,
-                              program=dict(kind="enum", order=res["order"]),
+            prog_ = dict(kind="enum", order=res["order"])
+            if res.get("kind") == "key_paths":
+                prog_ = dict(kind="enum", curve=res["curve"])
+            viols.append(dict(index=-res["order"], run_seed=0, program=prog_,
                               violation=v))
     if not_enum:
         raise core.HarnessError(
@@ -273,7 +383,8 @@ def execute(prog):
     if prog.get("kind") == "enum":
         # replay of an enumeration finding
         out = core.new_outcome()
-        res = enum_order(prog["order"])
+        res = enum_key_paths(prog["curve"]) if "curve" in prog \
+            else enum_order(prog["order"])
         if res["violation"]:
             site, msg = res["violation"]
             out["violation"] = core.violation(ID, "uniform", site, msg)
@@ -344,6 +455,26 @@ def execute(prog):
                 if v2 != v:
                     fail("replay/randrange", "same entropy stream gave %d, "
                          "then %d" % (v, v2))
+                # ... and not of what was drawn for other orders in between
+                bl_ = max(n.bit_length(), 1)
+                hr = random.Random(op["dseed"] ^ 0x5A5A)
+                for sib in (1 << (bl_ - 1), (1 << (bl_ - 1)) + 1, n + 1,
+                            (1 << bl_) - 1):
+                    if sib >= 2:
+                        try:
+                            lu.randrange(sib, _bounded(world.SimEntropy(
+                                "uniform", r=hr)))
+                        except world.NeedMore:
+                            pass
+                try:
+                    v3 = lu.randrange(n, world.SimEntropy("scripted",
+                                                          script=used))
+                except world.NeedMore:
+                    v3 = None
+                if v3 != v:
+                    fail("history/randrange", "the same (order, bytes) gave "
+                         "%d before and %r after draws for other orders of "
+                         "the same bit length" % (v, v3))
                 if name == "two_draws":
                     w = draw(lambda: lu.randrange(n, dev), dev)
                     if w is None:
